@@ -43,6 +43,7 @@ type FuncSpec struct {
 	Props        []string
 	PanicAssumed []string
 	PanicsIf     []*Clause // specified panics: panic allowed exactly under these conditions
+	EntryAssumes []*Clause // global invariants assumed when the body starts (not demanded of callers); listed in evidence
 	CbEnsures    []*Clause // obligations on every closure this function passes as a callback (over the callback parameters)
 	Callbacks    map[string]*FuncSpec
 	Decr         *Clause // termination measure for recursive functions
@@ -111,7 +112,7 @@ var labelRe = regexp.MustCompile(`^\[([A-Za-z0-9_.\-]+)\]\s*`)
 
 var clauseKeywords = map[string]bool{"decreases": true, "inlinecalls": true, "assumes": true, "ghostset": true, "ghostexit": true, "preserves": true, "requires": true, "ensures": true, "modifies": true, "allocates": true,
 	"loop": true, "inline": true, "assume": true, "pure": true, "props": true, "panic_assumed": true,
-	"panics_if": true, "cbensures": true, "callback": true, "nosafety": true, "params": true, "bounded": true}
+	"panics_if": true, "cbensures": true, "entryassumes": true, "callback": true, "nosafety": true, "params": true, "bounded": true}
 
 func newSpecs() *Specs {
 	return &Specs{Macros: map[string]string{}, Owned: map[string]bool{}, Funcs: map[string]*FuncSpec{}, Ghosts: map[string]*GhostDecl{}, SpecFuncs: map[string]*SpecFunc{}}
@@ -437,7 +438,7 @@ func parseClauseBody(rest, path string, line int) (*Clause, error) {
 
 func (sp *Specs) parseClause(fs *FuncSpec, w, rest, path string, line int) error {
 	switch w {
-	case "requires", "ensures", "panics_if", "assumes", "cbensures":
+	case "requires", "ensures", "panics_if", "assumes", "cbensures", "entryassumes":
 		c, err := parseClauseBody(rest, path, line)
 		if err != nil {
 			return err
@@ -455,6 +456,11 @@ func (sp *Specs) parseClause(fs *FuncSpec, w, rest, path string, line int) error
 			fs.Ensures = append(fs.Ensures, c)
 		case "panics_if":
 			fs.PanicsIf = append(fs.PanicsIf, c)
+		case "entryassumes":
+			if c.Label == "" {
+				c.Label = "entry" + strconv.Itoa(len(fs.EntryAssumes))
+			}
+			fs.EntryAssumes = append(fs.EntryAssumes, c)
 		case "cbensures":
 			if c.Label == "" {
 				c.Label = "cbpost" + strconv.Itoa(len(fs.CbEnsures))
